@@ -11,6 +11,7 @@ m={
  "hooks":{"guard":"verif","enable":"-tags verif (comment-only files <pkg>/contracts_verif.go; read by govc, compiled to nothing)","baseline_off_cmd":"cd /repo && go test -vet=off -count=1 -timeout 25m ./...","source_commits":hooks,"add_only":True},
  "engines":[
   {"name":"govc-wp","path":"/verif/govc","serves_properties":sorted(k for k in claimed),"kind_free_text":"contract-based deductive verification: weakest-precondition style VC generation over go/ssa of /repo's working tree, contracts as //@ comments in /repo/**/contracts_verif.go, obligations discharged by z3 5.1 / z3 4.8.12 / cvc5 1.0.3"},
+  {"name":"govc-bounded","path":"/verif/govc/engines.go","serves_properties":sorted(k for k in claimed),"kind_free_text":"bounded harnesses under /verif/replay run on the real code with go test -overlay (nothing written to /repo): enumerated input families with the property statement as oracle; labelled bounded, never counted as proved; also used to replay refuted obligations"},
   {"name":"govc-frames","path":"/verif/govc/region.go","serves_properties":["C10","C12","C11"],"kind_free_text":"frame/ownership obligations on every write instruction reachable from the entry points, decided by a context-sensitive region (may-point-to) analysis of the module and of github.com/go-shiori/dom from source"},
  ],
  "checks":[],
@@ -22,7 +23,7 @@ for p in props:
     if i in claimed:
         c=claimed[i]
         m["checks"].append({"property_id":i,"quick_cmd":f"./check {i} quick","thorough_cmd":f"./check {i} thorough","evidence_file":f"/verif/evidence/{i}.json","replay_cmd_template":"./check --replay {path}","engine":c.get("engine","govc-wp"),
-          "level_claimed":{"category":"proof","text":c["text"],"design_ref":c.get("design_ref","DESIGN.md §5")},"level_note":c["note"],"technique":c["technique"]})
+          "level_claimed":{"category":c.get("category","proof"),"text":c["text"],"design_ref":c.get("design_ref","DESIGN.md §5")},"level_note":c["note"],"technique":c["technique"]})
     else:
         m["not_applicable"].append({"property_id":i,"reason":na.get(i,"check not built yet (build in progress)")})
 json.dump(m,open('/verif/MANIFEST.json','w'),indent=1)
